@@ -825,9 +825,13 @@ bool varintBP128IsSorted64(const uint64_t *values, size_t count) {
 }
 
 size_t varintBP128GetCount(const uint8_t *src, size_t srcBytes) {
-    (void)srcBytes;
+    /* Read the leading count only if all of it lies inside the srcBytes the
+     * caller declared; a missing or truncated count is reported as 0. */
     uint64_t count;
-    varintTaggedGet64(src, &count);
+    const int32_t avail = srcBytes > INT32_MAX ? INT32_MAX : (int32_t)srcBytes;
+    if (varintTaggedGet(src, avail, &count) == 0) {
+        return 0;
+    }
     return (size_t)count;
 }
 
